@@ -7,6 +7,10 @@ with real pyatv.conf.AppleTV / ManualService configurations, real Settings objec
 
 A history is a list of JSON-able op descriptors
   ["get", cfg] ["update", cfg] ["remove", h] ["mutate", h, path, val] ["save"] ["savefail"] ["load"]
+  ["scan", [cfg, ...], filter]   the real pyatv.scan(storage=…) with the scanner's discovery faked to return
+                                 these configurations in this order; filter = None | [identifier, ...]
+  ["connect", cfg] ["pair", cfg, proto]   the real pyatv.connect / pyatv.pair up to the first create_core()
+                                 (spied on from the harness, then aborted: no network)
   cfg = [[proto, identifier|None, credentials|None, password|None], ...]
   h   = harness handle of a Settings object (objects are numbered in the order in which
         they first appear in storage.settings; the model numbers them the same way)
@@ -33,7 +37,8 @@ RULE = ("PRNG histories of <= 12 ops (get/update/remove/mutate/save/savefail/loa
         "protocols and identifiers of ONE device (any protocol slot, some None) — so two configurations overlap fully, "
         "partially or not at all — plus on-purpose bridging configurations (identifiers of two devices) and "
         "configurations without identifier; values from {default, '', ASCII, mixed case, leading/trailing blanks, 700-900 characters, non-BMP unicode, None}; on FileStorage and "
-        "MemoryStorage; fixed histories incl. the empty-storage boundary (every device removed, saved, reloaded); after every "
+        "MemoryStorage; the callers pyatv.scan (faked discovery of 2-4 configurations in varying order, identifier filters that "
+        "drop devices before kept ones, devices without identifier), pyatv.connect and pyatv.pair (up to create_core); fixed histories incl. the empty-storage boundary (every device removed, saved, reloaded); after every "
         "successful FileStorage.save() every stored identifier is looked up again in a FRESH storage after load().  non-trivial = the history contains a lookup that hits an existing object through a different "
         "configuration than the one that created it, or a save followed by a reload with >= 1 non-default device; "
         "distinct = (kind, history)")
@@ -135,13 +140,13 @@ def ids_of(obj):
     return [v for v in (read_key(obj, p) for p in ID_PATHS) if isinstance(v, str)]
 
 
-def make_conf(cfg):
+def make_conf(cfg, address="127.0.0.1"):
     from ipaddress import IPv4Address
 
     from pyatv import conf
     from pyatv.const import Protocol
 
-    c = conf.AppleTV(IPv4Address("127.0.0.1"), "verif")
+    c = conf.AppleTV(IPv4Address(address), "verif")
     for p, i, cr, pw in cfg:
         c.add_service(conf.ManualService(i, getattr(Protocol, p), 0, {}, cr, pw))
     return c
@@ -159,6 +164,63 @@ def set_key(obj, path, val):
     elif parts[-1] == "protocol_version":
         val = AirPlayVersion(val)
     setattr(cur, parts[-1], val)
+
+
+def services_of(conf_obj):
+    return [[str(sv.protocol.name), sv.identifier, sv.credentials, sv.password] for sv in conf_obj.services]
+
+
+class _Abort(Exception):
+    """raised by the create_core spy: the caller under test stops before any network use"""
+
+
+class _Callers:
+    """Patches applied FROM THE HARNESS to the names pyatv/__init__.py uses: the scanners'
+    discovery returns the given configurations (in order); create_core records what the
+    caller hands to the protocol layer and aborts."""
+
+    def __init__(self, discovered=None):
+        self.discovered = discovered or []
+        self.cores = []
+
+    def __enter__(self):
+        import pyatv
+        outer = self
+
+        class FakeScanner:
+            def __init__(self, *a, **k):
+                pass
+
+            def add_service_info(self, *a, **k):
+                pass
+
+            def add_service(self, *a, **k):
+                pass
+
+            async def discover(self, timeout):
+                return {c.address: c for c in outer.discovered}
+
+        async def spy_create_core(config, service, *a, **k):
+            outer.cores.append((config, service, k.get("settings")))
+            sm = k.get("session_manager")
+            if sm is not None:
+                try:
+                    await sm.close()
+                except Exception:
+                    pass
+            raise _Abort()
+
+        self._saved = {n: getattr(pyatv, n) for n in ("MulticastMdnsScanner", "UnicastMdnsScanner", "ZeroconfMulticastScanner",
+                                                       "ZeroconfUnicastScanner", "create_core") if hasattr(pyatv, n)}
+        for n in self._saved:
+            setattr(pyatv, n, spy_create_core if n == "create_core" else FakeScanner)
+        return self
+
+    def __exit__(self, *exc):
+        import pyatv
+        for n, v in self._saved.items():
+            setattr(pyatv, n, v)
+        return False
 
 
 class _FailOpen:
@@ -255,6 +317,26 @@ class Oracle:
                 self.problem("lookup-complete:storage-grew", len(storage.settings), len(before),
                              "lookup of a known device changed the number of stored devices")
 
+    def check_applied(self, cfg, after, storage, where):
+        """credentials saved for one device are never applied to another: every credential /
+        password a caller put on a configuration (value differs from what the configuration
+        came with) must be the value stored for a device sharing an identifier with it."""
+        cids = {i for _p, i, _c, _pw in cfg if i is not None}
+        sharing = [o for o in storage.settings if set(ids_of(o)) & cids]
+        orig = {p: (c, pw) for p, _i, c, pw in cfg}
+        for p, _i, c, pw in after:
+            for field, now, was in (("credentials", c, orig.get(p, (None, None))[0]), ("password", pw, orig.get(p, (None, None))[1])):
+                if now == was:
+                    continue
+                allowed = [read_key(o, "protocols.%s.%s" % (PNAME[p], field)) for o in sharing]
+                if now not in allowed:
+                    owners = [ids_of(o) for o in storage.settings
+                              if read_key(o, "protocols.%s.%s" % (PNAME[p], field)) == now and not (set(ids_of(o)) & cids)]
+                    self.problem("%s:credentials-of-another-device-applied" % where,
+                                 {"config_ids": sorted(cids), "protocol": p, "field": field, "applied": now, "stored_for_device": owners},
+                                 "only values stored for a device sharing an identifier with the configuration",
+                                 "%s put %s on a configuration that were stored for a device with disjoint identifiers" % (where, field))
+
     def check_changed(self, storage, changed):
         full = [content_of(o) for o in storage.settings]
         decl = self.canon_decl(storage.settings)
@@ -342,7 +424,7 @@ def execute(kind, ops, loop):
 
         for idx, op in enumerate(ops):
             kind_op = op[0]
-            res, reloaded = "?", None
+            res, reloaded, extra = "?", None, {}
             oracle.problems = []
             try:
                 if kind_op in ("get", "update"):
@@ -365,6 +447,66 @@ def execute(kind, ops, loop):
                             res = "ok"
                     except Exception as e:
                         res = "err:" + type(e).__name__
+                elif kind_op == "scan":
+                    import pyatv
+                    confs = [make_conf(c, "10.0.0.%d" % (n + 1)) for n, c in enumerate(op[1])]
+                    filt = op[2]
+                    ident = None if not filt else (filt[0] if len(filt) == 1 else set(filt))
+                    before = list(storage.settings)
+                    with _Callers(discovered=confs):
+                        returned = loop.run_until_complete(pyatv.scan(loop, identifier=ident, storage=storage))
+                    number()
+                    idx_of = {id(c): n for n, c in enumerate(confs)}
+                    ret_idx = [idx_of.get(id(c), -1) for c in returned]
+                    res = "ok"
+                    mlines = ["get " + w_cfg(op[1][n]) for n in ret_idx if n >= 0]
+                    ians = ["*"] * len(mlines)
+                    for n, c in enumerate(confs):
+                        oracle.check_applied(op[1][n], services_of(c), storage, "scan")
+                    for n in ret_idx:
+                        if n < 0:
+                            continue
+                        cids = {i for _p, i, _c, _pw in op[1][n] if i is not None}
+                        hit = next((o for o in storage.settings if set(ids_of(o)) & cids), None)
+                        if hit is not None:
+                            applies.append((content_of(hit), op[1][n], services_of(confs[n])))
+                    extra = {"mlines": mlines, "ians": ians, "returned": ret_idx}
+                elif kind_op in ("connect", "pair"):
+                    import pyatv
+                    from pyatv.const import Protocol
+                    conf_obj = make_conf(op[1])
+                    before = list(storage.settings)
+                    before_ids = [ids_of(o) for o in before]
+                    mlines, ians = [], []
+                    with _Callers() as cal:
+                        try:
+                            if kind_op == "connect":
+                                loop.run_until_complete(pyatv.connect(conf_obj, loop, storage=storage))
+                            else:
+                                loop.run_until_complete(pyatv.pair(conf_obj, getattr(Protocol, op[2]), loop, storage=storage))
+                            res = "returned"
+                        except _Abort:
+                            res = "core"
+                        except Exception as e:
+                            res = "err:" + type(e).__name__
+                    number()
+                    grew = len(storage.settings) != len(before)
+                    if cal.cores:
+                        cconf, _svc, sett = cal.cores[0]
+                        mlines = ["get " + w_cfg(op[1])]
+                        ians = ["h%d" % handles.get(id(sett), -1)]
+                        if any(sett is o for o in storage.settings):
+                            oracle.check_get(before, before_ids, op[1], sett, storage)
+                        else:
+                            oracle.problem(kind_op + ":settings-not-from-storage", None, "the storage's object", "%s handed the protocol layer a settings object that is not the storage's" % kind_op)
+                        if kind_op == "connect":
+                            oracle.check_applied(op[1], services_of(cconf), storage, "connect")
+                            applies.append((content_of(sett), op[1], services_of(cconf)))
+                    elif res == "err:DeviceIdMissingError" and kind_op == "pair":
+                        mlines, ians = ["get " + w_cfg(op[1])], ["err:DeviceIdMissingError"]
+                    elif grew:
+                        mlines, ians = ["get " + w_cfg(op[1])], ["*"]
+                    extra = {"mlines": mlines, "ians": ians}
                 elif kind_op == "remove":
                     target = objs[op[1]] if op[1] < len(objs) else None
                     if target is None:
@@ -406,7 +548,7 @@ def execute(kind, ops, loop):
             if ch in (True, False):
                 oracle.check_changed(storage, ch)
             content = [(handles[id(o)], content_of(o)) for o in storage.settings]
-            obs.append({"op": op, "res": res, "changed": ch, "handles": hl, "content": content, "reloaded": reloaded})
+            obs.append(dict({"op": op, "res": res, "changed": ch, "handles": hl, "content": content, "reloaded": reloaded}, **extra))
             problems += [(idx,) + p for p in oracle.problems]
         final = None
         if kind == "file":
@@ -424,7 +566,9 @@ def model_lines(kind, obs, final):
     for o in obs:
         op = o["op"]
         k = op[0]
-        if k in ("get", "update"):
+        if "mlines" in o:
+            lines += o["mlines"]
+        elif k in ("get", "update"):
             lines.append("%s %s" % (k, w_cfg(op[1])))
         elif k == "remove":
             lines.append("remove " + w_content(op[2]) if len(op) > 2 else "content")
@@ -445,7 +589,11 @@ def impl_answers(kind, obs, final):
     for o in obs:
         st = "%d %s" % (1 if o["changed"] is True else 0 if o["changed"] is False else -1,
                         ",".join(map(str, o["handles"])) or "-")
-        if o["op"][0] == "remove" and len(o["op"]) <= 2:
+        if "ians" in o:
+            # caller ops: one model `get` per lookup the caller made; intermediate answers are not
+            # observable ("*"), the storage status after the last one is
+            out += ["*"] * (len(o["ians"]) - 1) + ["%s %s" % (a, st) for a in o["ians"][-1:]]
+        elif o["op"][0] == "remove" and len(o["op"]) <= 2:
             out.append("|".join("%d:%s" % (h, w_content(c)) for h, c in o["content"]) or "-")   # skipped op: content line twice
         else:
             out.append("%s %s" % (o["res"], st))
@@ -522,9 +670,24 @@ def gen_history(rng, kind, length):
             if path.endswith("identifier") and rng.chance(0.7):
                 path = rng.choice(mpaths)
             ops.append(["mutate", rng.randrange(max(1, nobj + 1)), path, gen_value(rng, path)])
-        elif r < 0.90:
+        elif r < 0.86:
             ops.append(["save"])
-        elif r < 0.94 and kind == "file":
+        elif r < 0.92:
+            c = rng.random()
+            if c < 0.5:
+                n = rng.choice([2, 3, 3, 4])
+                cfgs = [gen_cfg(rng, rng.choice(["dev"] * 6 + ["noid", "bridge"])) for _ in range(n)]
+                allids = [i for cf in cfgs for _p, i, _c, _pw in cf if i]
+                filt = None if (rng.chance(0.25) or not allids) else rng.sample(allids, min(len(allids), rng.choice([1, 1, 2])))
+                ops.append(["scan", cfgs, filt])
+                nobj += n
+            elif c < 0.8:
+                ops.append(["connect", gen_cfg(rng)])
+                nobj += 1
+            else:
+                ops.append(["pair", gen_cfg(rng), rng.choice(PROTOS)])
+                nobj += 1
+        elif r < 0.95 and kind == "file":
             ops.append(["savefail"])
         else:
             ops.append(["load"])
@@ -550,6 +713,16 @@ def fixed_histories():
         [["get", [["MRP", C0, "k", None]]], ["save"], ["remove", 0], ["save"], ["load"], ["get", [["MRP", C0, None, None]]]],
         [["update", a], ["update", [["RAOP", B1, "SECRET-B", "pw"]]], ["save"], ["remove", 0], ["save"], ["remove", 1], ["save"],
          ["load"], ["get", [["RAOP", B1, None, None]]]],
+        # callers of the storage: scan with devices filtered out (identifier filter / no identifier) discovered
+        # BEFORE kept ones, connect and pair
+        [["update", [["AirPlay", A0, "creds-A", "pw-A"]]], ["update", [["AirPlay", B0, "creds-B", None], ["Companion", B1, "comp-B", None]]],
+         ["update", [["AirPlay", C0, "creds-C", "pw-C"], ["RAOP", C0, "raop-C", None]]], ["save"],
+         ["scan", [[["AirPlay", A0, None, None]], [["AirPlay", B0, None, None], ["Companion", B1, None, None]],
+                   [["AirPlay", C0, None, None], ["RAOP", C0, None, None]]], [B0, C0]],
+         ["scan", [[["MRP", None, None, None], ["AirPlay", "", None, None]], [["RAOP", C0, None, None]], [["AirPlay", A0, None, None]]], None],
+         ["scan", [[["AirPlay", B0, None, None]], [["AirPlay", "Zz", None, None]], [["AirPlay", A0, "own", None]]], [A0]],
+         ["connect", [["AirPlay", B0, None, None], ["Companion", B1, None, None]]], ["pair", [["RAOP", C0, None, None]], "RAOP"],
+         ["connect", [["MRP", "new-device", "k", None]]], ["pair", [["MRP", None, None, None]], "MRP"], ["pair", [["MRP", A0, None, None]], "DMAP"]],
         # no identifier
         [["get", [["MRP", None, "k", None]]], ["update", []], ["save"], ["load"]],
         # identifier overwritten with None by update; all-default device
@@ -604,11 +777,19 @@ def run_histories(ctx, cases):
         case = {"kind": kind, "ops": ops}
         ctx.case([kind, ops], nontrivial(obs), sample={"kind": kind, "ops": ops[:6]})
         ctx.validated()
+        if len(impl) != len(model):
+            ctx.disagree(case, len(impl), len(model), where="storage history (line count)")
         for o in obs:
             ctx.note("op:" + o["op"][0])
+            if o["op"][0] in ("scan", "connect", "pair"):
+                ctx.note("%s:%s" % (o["op"][0], o["res"] if o["op"][0] != "scan" else "returned=%d/%d" % (len(o.get("returned", [])), len(o["op"][1]))))
             if o["op"][0] == "get":
                 ctx.note("get:" + ("error" if o["res"].startswith("err") else "answered"))
         for i, (a, b) in enumerate(zip(impl, model)):
+            if a == "*":
+                continue
+            if a.startswith("* "):
+                a, b = a[2:], b.split(" ", 1)[1] if " " in b else b
             if a != b:
                 ctx.disagree(dict(case, line=ml[i], line_index=i), a, b, where="storage history")
                 break
